@@ -307,7 +307,7 @@ theorem step_invC_simple {s s' : State} {a : Act} (inv : InvC s)
           (by
             intro t' ht'
             rcases List.mem_append.mp ht' with ht' | ht'
-            · exact Or.inl (List.mem_filter.mp ht').1
+            · exact Or.inl (mem_dropTables ht')
             · have hm : t'.uri ∈ uris add := List.mem_map.mpr ⟨t', ht', rfl⟩
               exact Or.inr ⟨List.mem_append_left _ (List.mem_map.mpr ⟨t'.uri, hm, rfl⟩), List.mem_append_left _ hm⟩)
           (by
